@@ -16,6 +16,7 @@ mod dml;
 mod hist;
 mod c21;
 mod txn;
+mod c33;
 
 /// Expands to a `match` over property ids calling the generic function `$f`
 /// with the check value followed by the extra arguments.
@@ -36,6 +37,7 @@ macro_rules! dispatch {
             "C13" => $f(txn::C13, $($extra),*),
             "C14" => $f(txn::C14, $($extra),*),
             "C15" => $f(c09_15::C15, $($extra),*),
+            "C33" => $f(c33::C33, $($extra),*),
             "C21" => $f(c21::C21, $($extra),*),
             other => {
                 eprintln!("unknown property id {}", other);
